@@ -1193,7 +1193,24 @@ pub fn run_c12(ctx: &Ctx, rep: &mut Report) {
             }
             _ => {
                 // picture sniffers
-                let img: Vec<u8> = match rng.below(8) {
+                let img: Vec<u8> = match rng.below(9) {
+                    8 => {
+                        // palette PNG whose chunk in front of PLTE declares a length at the edges of u32
+                        // (length + the 4 CRC bytes wraps), with a genuine PLTE chunk behind it
+                        let mut v = b"\x89PNG\r\n\x1a\n".to_vec();
+                        v.extend_from_slice(&13u32.to_be_bytes());
+                        v.extend_from_slice(b"IHDR");
+                        v.extend_from_slice(&[0, 0, 0, 16, 0, 0, 0, 16, *rng.pick(&[1u8, 2, 4, 8]), 3, 0, 0, 0, 0, 0, 0, 0]);
+                        let len = *rng.pick(&[0u32, 1, 0x7FFF_FFFF, 0x8000_0000, 0xFFFF_FFF0, 0xFFFF_FFFB, 0xFFFF_FFFC, 0xFFFF_FFFD, 0xFFFF_FFFE, 0xFFFF_FFFF]);
+                        v.extend_from_slice(&len.to_be_bytes());
+                        v.extend_from_slice(*rng.pick(&[b"gAMA", b"tEXt", b"sRGB", b"IDAT"]));
+                        v.extend(rng.rbytes(0, 12));
+                        v.extend_from_slice(&3u32.to_be_bytes());
+                        v.extend_from_slice(b"PLTE");
+                        v.extend_from_slice(&[1, 2, 3, 0, 0, 0, 0]);
+                        rep.count("png_chunk_length_edge", format!("{len:#x}"));
+                        v
+                    }
                     0 => rm::png_header(rng.next() as u32, rng.next() as u32, *rng.pick(&[0u8, 1, 8, 16, 64, 85, 86, 128, 255]), *rng.pick(&[0u8, 2, 3, 4, 6, 7]), if rng.chance(1, 2) { Some(*rng.pick(&[0u32, 3, 4, 768, 0xFFFFFFFF])) } else { None }),
                     1 => rm::jpeg_header(*rng.pick(&[0u8, 8, 12, 16, 64, 128, 255]), rng.next() as u16, rng.next() as u16, *rng.pick(&[0u8, 1, 3, 4, 16, 255]), *rng.pick(&[0xC0u8, 0xC2, 0xCF, 0xC4, 0xC8]), &[(0xE0, 16), (0xDB, *rng.pick(&[0u16, 1, 2, 67, 65535]))]),
                     2 => rm::gif_header(rng.next() as u16, rng.next() as u16, rng.next() as u8),
